@@ -15,6 +15,13 @@ claimed={
  "C06":C("other","Bounded symbolic verification: the real raw Unpack on a fully symbolic byte stream of each listed length; every buffer allocation size is a solver term checked against the configured limit; termination by instruction budget (an exceeded budget is INCONCLUSIVE).","DESIGN.md §6 C06"),
  "C08":C("other","Scripted-interleaving symbolic execution of the real Close/closeLocked/wait groups/read loop/handleCall/write: handler entered and blocked, local Close in progress, reader EOF meanwhile (3 variants); reply-before-socket-close and Close-returns-after-handler are checked on the scripted connection. Not an exploration of all interleavings.","DESIGN.md §6 C08","symbolic execution of go/ssa with harness-scripted thread interleavings + SMT"),
  "C12":C("other","Bounded symbolic verification of the real xfer.XferPipe and of pipe transport in the raw protocol and in replies (handleCall): solver-chosen filter sequences over three harness filters, symbolic payloads; unregistered ids and the 255/256 boundary.","DESIGN.md §6 C12"),
+ "C07":C("other","Bounded symbolic verification: solver-chosen histories (accept / SetID with fresh or colliding id / local close / remote close / traffic) of length <= 4-5 over <= 3 sessions through the real ServeConn/SetID/SessionHub/Close/readDisconnected; after every step the index, health, close notification, fail-fast and disconnect-hook count are compared with a reference model. Quiescent points only.","DESIGN.md §6 C07"),
+ "C09":C("other","Bounded symbolic verification: containers built by the real AppendLeft/AppendRight/SubRoute/reg/refresh (slice growth as runtime.growslice), one CALL to one of two sibling routes, solver-chosen vetoing (plugin, stage), symbolic veto status; the hook trace must be a subsequence of the documented order restricted to global + matched chain; client-side pre-write veto writes nothing.","DESIGN.md §6 C09"),
+ "C10":C("other","Bounded symbolic verification: the real name mappers on symbolic ASCII identifiers (total, deterministic, documented table), the real reg/getCall/getPush with symbolic requested names (exact match only, CALL/PUSH namespaces, unknown-handler, 404), conflicts reach Fatalf. Reflection-based controller extraction is outside the claim.","DESIGN.md §6 C10"),
+ "C15":C("other","Every predefined status is snapshotted before and compared after each failure-path harness (connection loss with/without read error, cancelled calls, 404/400/500/405 replies, write failures, proxy failures); any in-place change of a shared status fails an SMT-checked assertion.","DESIGN.md §6 C15"),
+ "C16":C("other","Bounded symbolic verification: the real ServeConn/postAccept/auth checker/PreReceive/raw Unpack on a scripted connection whose first bytes are symbolic (AUTH_CALL with symbolic token, CALL, frame of symbolic type, arbitrary bytes, nothing) plus pipelined frames; handler and hook counters stay zero unless authentication succeeded; rejected connections are closed and unlisted.","DESIGN.md §6 C16"),
+ "C18":C("other","Connection limit: solver-chosen accept/reject/close histories through the real ServeConn + overloader; races (two accepts for the last slot; takers vs refill tick) explored over all schedules with <= 2 pre-emptions at sync/atomic operations, schedule choices being decisions of the symbolic execution; rate-limit arithmetic sequentially. Two known findings recorded.","DESIGN.md §6 C18","symbolic execution of go/ssa + SMT; bounded-preemption schedule exploration for the race harnesses"),
+ "C19":C("other","Bounded symbolic verification: real proxy.call/push and a real forwarding session; the harness plays caller and backend at wire level; forwarded frame and reply to the caller are compared with the request / the backend's reply for symbolic body, status code and metadata; backend failure => 502 on that call only.","DESIGN.md §6 C19"),
  "C20":C("other","Differential bounded symbolic verification: an object dirtied with symbolic field values, released and re-acquired from the pool is compared field by field and by packed bytes with a fresh one, before and after a solver-chosen next use (message, Args, XferPipe, ByteBuffer).","DESIGN.md §6 C20"),
 }
 na_reason={}
